@@ -28,7 +28,7 @@ def make_file(path, length, segs, seed=1, sync=True):
         os.close(fd)
 
 
-def fiemap(path, slots=2048):
+def fiemap(path, slots=16384):
     """All extents by ONE request with many slots (independent of libfs' paging). -> list of (start, stop, shared, last)"""
     fd = os.open(path, os.O_RDONLY)
     try:
